@@ -148,7 +148,11 @@ def mutate(text, rng):
 
 def inject(rng):
     """(rule name, text) - a small valid context with exactly one documented rule broken."""
-    ctx_before = rng.choice(['', 'hue 5 set all\n', 'assign x 3\n', 'define M 5\n', 'define f with a begin print a end\n', 'repeat 2 begin on all end\n'])
+    ctx_before = rng.choice(['', 'hue 5 set all\n', 'assign x 3\n', 'define M 5\n', 'define f with a begin print a end\n', 'repeat 2 begin on all end\n',
+                             # variables that carry the names of the compiler's internal token classes: the text goes on after them
+                             'assign eof 1\nprint eof\n', 'assign eof 2 wait eof on all eof\n', 'print eof\n', 'wait eof\n', 'on all eof\n', 'eof\n',
+                             'println unknown\n', 'wait syntax_error\n', 'assign unknown 1 print unknown\n',
+                             'assign syntax_error 3\nhue syntax_error\n'])
     ctx_after = rng.choice(['', '\non all', '\nprint 1', '\nset "Top"'])
     rules = {
         'break-outside-loop': ['break', 'if {1 < 2} break', 'if {1 < 2} begin on all break end', 'define f begin break end f',
@@ -159,7 +163,10 @@ def inject(rng):
         'redefine-routine': ['define r1 on all define r1 off all', 'define r2 begin on all end define r2 5'],
         'undefined-name': ['hue zz', 'assign y zz', 'print zz', 'zz', 'zz 5', '[zz]', 'set zz', 'on group zz', 'print {1 + zz}', 'hue [zz 1]',
                            'repeat zz begin on all end', 'if zz on all', 'assign zz {zz + 1}', 'assign zz zz', 'assign zz [round zz]',
-                           'define f with a begin assign acc_ {acc_ + a} end f 1', 'define u1 zz', 'define u2 zz print 1', 'define u3 zz on all', 'set "Top" zone zz', 'define f with a begin print b_ end f 1'],
+                           'define f with a begin assign acc_ {acc_ + a} end f 1', 'define u1 zz', 'define u2 zz print 1', 'define u3 zz on all',
+                           # a parameter is known inside its routine only
+                           'define fp with pp begin print pp end print pp', 'define fp with pp qq begin on all end hue qq',
+                           'define fp with pp begin on all end define gp begin print pp end gp', 'define fp with pp begin on all end assign w {pp + 1}', 'set "Top" zone zz', 'define f with a begin print b_ end f 1'],
         'nested-routine': ['define outer begin define inner on all end', 'define o2 with a begin define i2 with b begin print b end end'],
         'missing-end': ['repeat 2 begin on all', 'if {1 < 2} begin on all', 'define f begin on all', 'set "Top" begin stage row 1', 'repeat begin if 1 begin on all end'],
         'unbalanced': ['hue {1 + 2', 'hue {(1 + 2}', 'hue {1 + 2)}', 'print [round 1', 'hue {1 + 2}}', 'define f with a begin return {a end', 'print ]',
